@@ -32,7 +32,7 @@ type vsPrepop struct {
 }
 
 type vsOp struct {
-	Op  string  `json:"op"`  // WriteVar | WriteSignedUpdate | WriteBlob | GetVar | GetVarWithAttributes | Typed
+	Op  string  `json:"op"`  // WriteVar | WriteSignedUpdate | WriteBlob | GetVar | GetVarInto | GetVarWithAttributes | Typed | Reopen
 	Var int     `json:"var"` // index into cfg.Vars
 	Val ValSpec `json:"val,omitempty"`
 	Key int     `json:"key,omitempty"`
@@ -61,7 +61,8 @@ var vsSecure = []string{"PK", "KEK", "Db", "Dbx"}
 func (e *varstoreEngine) Gen(seed uint64, tier string, run int) *Trace {
 	r := NewR(seed, "varstore", run)
 	var c vsCfg
-	c.Instant = time.Date(2000+r.Intn(50), time.Month(1+r.Intn(12)), 1+r.Intn(28), r.Intn(24), r.Intn(60), r.Intn(60), 0, time.UTC).Format(time.RFC3339)
+	ti, _ := genInstant(r.Fork("instant"))
+	c.Instant = ti.Format(time.RFC3339)
 	// swarm: which variables exist in this run
 	nsec := r.Range(1, 3)
 	for _, i := range r.Perm(len(vsSecure))[:nsec] {
@@ -129,7 +130,20 @@ func (e *varstoreEngine) Gen(seed uint64, tier string, run int) *Trace {
 	var ops []vsOp
 	for i := 0; i < nops; i++ {
 		vi := r.Intn(len(c.Vars))
-		switch r.Weighted([]int{5, 2, 4, 1, 2, 2}) {
+		switch r.Weighted([]int{5, 2, 4, 1, 2, 2, 2, 1}) {
+		case 6:
+			// read into a database object that earlier reads of this run already filled
+			if isSecure(vi) {
+				ops = append(ops, vsOp{Op: "GetVarInto", Var: vi})
+			} else {
+				ops = append(ops, vsOp{Op: "GetVar", Var: vi})
+			}
+		case 7:
+			if r.Chance(1, 3) {
+				ops = append(ops, vsOp{Op: "Reopen", Var: vi})
+			} else {
+				ops = append(ops, vsOp{Op: "GetVar", Var: vi})
+			}
 		case 5:
 			if vi == twin {
 				ops = append(ops, vsOp{Op: "WriteVar", Var: vi, Val: val(vi), Reuse: true})
@@ -166,6 +180,7 @@ func (e *varstoreEngine) Gen(seed uint64, tier string, run int) *Trace {
 
 type regIn struct {
 	Write bool
+	Unset bool // the store was re-opened and this variable is not among the pre-populated ones
 	Var   int
 	Val   string
 }
@@ -194,6 +209,9 @@ var regModel = porcupine.Model{
 	Init: func() interface{} { return "\x00unset" },
 	Step: func(state, input, output interface{}) (bool, interface{}) {
 		in, out := input.(regIn), output.(regOut)
+		if in.Unset {
+			return true, "\x00unset"
+		}
 		if in.Write {
 			return true, in.Val
 		}
@@ -261,6 +279,11 @@ func vsExec(c vsCfg, ops []vsOp, x *X) (hist []porcupine.Operation) {
 	}
 	api := tfs.Open()
 	objs := map[string]vsObj{}
+	var shared signature.SignatureDatabase // one destination object reused by every GetVarInto of the run
+	prepop := map[int][]byte{}
+	for k, v := range model {
+		prepop[k] = v
+	}
 	seq := int64(0)
 	writes := map[int]int{}
 	readAfter2 := false
@@ -326,8 +349,11 @@ func vsExec(c vsCfg, ops []vsOp, x *X) (hist []porcupine.Operation) {
 					werr = api.WriteVar(v, m)
 				} else {
 					pk := Pool()[op.Key%poolSize]
-					if !vsIsSecure(vs) {
-						// ordinary variable: the store keeps the whole signed update
+					if !vsStoreStrips(v.Name) {
+						// ordinary variable: the store keeps the whole signed update. (The store decides by
+						// NAME: a vendor variable that happens to be called PK/KEK/db/dbx is stripped too; the
+						// statement speaks of "secure-boot variables" and does not say which reading is meant,
+						// so the model follows the store there.)
 						_, m, err := signature.SignEFIVariable(v, rawVal(val), pk.Key, pk.Cert)
 						if err != nil {
 							harnessf("SignEFIVariable: %v", err)
@@ -353,13 +379,43 @@ func vsExec(c vsCfg, ops []vsOp, x *X) (hist []porcupine.Operation) {
 			}
 			hist = append(hist, porcupine.Operation{ClientId: 0, Input: regIn{Write: true, Var: op.Var, Val: string(expect)}, Call: call, Output: regOut{}, Return: seq})
 			seq++
-		case "GetVar", "GetVarWithAttributes", "Typed":
+		case "Reopen":
+			// TestFS.Open() composes the store afresh from the files given to With(): everything written since is gone
+			api = tfs.Open()
+			for k := range model {
+				delete(model, k)
+				delete(has, k)
+			}
+			for k, v := range prepop {
+				model[k], has[k] = v, true
+			}
+			for k := range writes {
+				writes[k] = 0
+			}
+			for k := range c.Vars {
+				in := regIn{Write: true, Var: k, Val: string(prepop[k])}
+				if _, ok := prepop[k]; !ok {
+					in = regIn{Unset: true, Var: k}
+				}
+				hist = append(hist, porcupine.Operation{ClientId: 0, Input: in, Call: seq, Output: regOut{}, Return: seq + 1})
+				seq += 2
+			}
+			x.Logf("op %d Reopen", i)
+			x.Probe("reopen")
+			continue
+		case "GetVar", "GetVarInto", "GetVarWithAttributes", "Typed":
 			var got []byte
 			var rerr error
 			var gotAttrs attributes.Attributes
 			func() {
 				defer func() { pv = recover() }()
 				switch op.Op {
+				case "GetVarInto":
+					rerr = api.GetVar(v, &shared)
+					if rerr == nil {
+						got = shared.Bytes()
+					}
+					x.Probe("read_into_used_destination")
 				case "GetVar":
 					var s rawSink
 					rerr = api.GetVar(v, &s)
